@@ -49,7 +49,7 @@ def _velocity(name, dim, shape, dtype):
     return v
 
 
-def case_dt(kind, shape, dtype, nus, cfls):
+def case_dt(kind, shape, dtype, nus, cfls, rho=1.0):
     """One simulator per (kind, shape, dtype, nu, cfl) for small grids; the largest grid of each
     dimension reuses one object and sets the public attributes (reported in the evidence)."""
     real_t = np.dtype(dtype).type
@@ -63,7 +63,7 @@ def case_dt(kind, shape, dtype, nus, cfls):
     outcomes = set()
     for nu, cfl in itertools.product(nus, cfls):
         if sim is None or not big:
-            cfg = dict(kind=kind, shape=shape, dtype=dtype, params=[1e-2, nu, 1.0], poisson="fastdiag" if kind == "ns3d" and big else "greens")
+            cfg = dict(kind=kind, shape=shape, dtype=dtype, params=[1e-2, nu, rho], poisson="fastdiag" if kind == "ns3d" and big else "greens")
             sim = simcfg.make_sim(cfg)
         sim.kinematic_viscosity = nu
         sim.cfl = cfl
@@ -76,7 +76,7 @@ def case_dt(kind, shape, dtype, nus, cfls):
                 dt = sim.compute_stable_timestep(dt_prefac=p)
                 dts[p] = float(dt)
                 states += 1
-                ctx = dict(kind=kind, shape=shape, dtype=dtype, nu=nu, cfl=cfl, velocity=vel, prefactor=p, dt=float(dt))
+                ctx = dict(kind=kind, shape=shape, dtype=dtype, nu=nu, cfl=cfl, velocity=vel, prefactor=p, dt=float(dt), rho=rho)
                 if not np.isfinite(dt) or not dt > 0:
                     fails.append(Fail("dt:finite-positive", "returned time step is not finite and positive", **ctx))
                     continue
@@ -93,7 +93,7 @@ def case_dt(kind, shape, dtype, nus, cfls):
             lim = 0.9 / (2 * dim)
             if dif > lim * (1 + 16 * eps):
                 fails.append(Fail("dt:diffusive-limit", "nu * dt / dx^2 exceeds 0.9 / (2 * dimension) beyond rounding",
-                                  kind=kind, shape=shape, dtype=dtype, nu=nu, cfl=cfl, velocity=vel, value=dif, limit=lim, excess_rel=dif / lim - 1))
+                                  kind=kind, shape=shape, dtype=dtype, nu=nu, cfl=cfl, velocity=vel, value=dif, limit=lim, excess_rel=dif / lim - 1, rho=rho))
             outcomes.add("adv" if adv > 0.99 * cfl else ("dif" if dif > 0.99 * lim else "none"))
     return CaseResult(fails=fails, states=states, transitions=states, traces=states, outcome=f"{kind}:{shape}:{dtype}:{sorted(outcomes)}", extra={"binding_limits_seen": sorted(outcomes), "reused_object": big})
 
@@ -177,11 +177,18 @@ def run(r) -> None:
                 else:
                     for nu in NUS:
                         cases.append(dict(kind=kind, shape=shape, dtype=dt, nus=[nu], cfls=CFLS))
+    # fluid density is a configuration of the Navier-Stokes simulators (it must not enter the limits)
+    for kind in ("ns2d", "ns3d"):
+        d = simcfg.dim_of(kind)
+        for shape in GRIDS[d][:2]:
+            for dt in ("float64", "float32"):
+                for rho in (8.0, 0.5):
+                    cases.append(dict(kind=kind, shape=shape, dtype=dt, nus=NUS, cfls=CFLS[:2], rho=rho))
     cases.sort(key=lambda c: -int(np.prod(c["shape"])))
     r.run_cases("dt-lattice", "dt", cases)
     mp = [dict(dim=2, field_type="scalar", beta_src=b) for b in ("limit", "returned")]
     mp += [dict(dim=3, field_type=ft, beta_src=b) for ft in ("scalar", "vector") for b in ("limit", "returned")]
     r.run_cases("max-principle", "maxprinciple", mp)
-    r.bounds = {"nu": NUS, "cfl": CFLS, "prefactor": PREFACS, "velocity": VELS, "grids": GRIDS, "kinds": KINDS, "full_product": not quick}
+    r.bounds = {"nu": NUS, "cfl": CFLS, "prefactor": PREFACS, "velocity": VELS, "grids": GRIDS, "kinds": KINDS, "flow_density": [1.0, 8.0, 0.5], "full_product": not quick}
     r.extra["rule"] = "dt: one state per (class, grid, dtype, nu, cfl, velocity pattern, prefactor); max principle: one state per unit impulse of the exact diffusion matrix"
     r.assumptions = ["largest grid per dimension reuses one simulator object and sets kinematic_viscosity / cfl attributes"]
